@@ -255,7 +255,7 @@ def check_report(data, labels):
         # the derived ratio of the unified summary: decided by the caller against the Coq model (ReportRun.run_dup =
         # ScoreQ.code_duplication_of) on THIS report's statistics
         P.ratios.append({"has_clone": True, "lines": st.get("lines_analyzed", 0), "groups": st.get("total_clone_groups", 0),
-                         "listed_groups": len(groups), "reported": U.get("code_duplication_percentage")})
+                         "listed_groups": len(groups), "pairs": st.get("total_clone_pairs", 0), "reported": U.get("code_duplication_percentage")})
     elif "code_duplication_percentage" in U:
         P.ratios.append({"has_clone": False, "lines": 0, "groups": 0, "listed_groups": 0, "reported": U.get("code_duplication_percentage")})
     if U:
@@ -784,9 +784,12 @@ def make_size_project(d, rng, target_lines, nfam):
     two_files = rng.random() < 0.5
     pad = rng.choice(PAD_KINDS)
     a, b = ['"""Sized module (first copies)."""', ""], (['"""Sized module (second copies)."""', ""] if two_files else [])
+    copies = [rng.choice([2, 2, 3]) for _ in range(nfam)]      # three copies: the group has more pairs than one
     for i in range(nfam):
         a += size_family_fn(i, "fam%d_first" % i)
         (b if two_files else a).extend(size_family_fn(i, "fam%d_second" % i))
+        if copies[i] == 3:
+            a += size_family_fn(i, "fam%d_third" % i)
     have = (len(a) + 1) + ((len(b) + 1) if two_files else 0)     # text = "\n".join(ls) + "\n" -> len(ls) newlines -> len(ls) + 1 lines counted
     need = target_lines - have
     if need < 0:
@@ -805,7 +808,7 @@ def make_size_project(d, rng, target_lines, nfam):
     for n, ls in files.items():
         with open(os.path.join(d, n), "w") as f:
             f.write("\n".join(ls) + "\n")
-    return {"kind": "size", "files": sorted(files), "target_lines": target_lines, "families": nfam, "padding": pad, "two_files": two_files,
+    return {"kind": "size", "files": sorted(files), "target_lines": target_lines, "families": nfam, "copies": copies, "padding": pad, "two_files": two_files,
             "padding_lines_in_first_file": cut, "broken": []}
 
 
